@@ -1,6 +1,6 @@
 CHECK = dict(
     engine="loop", design_ref="4 / the connection and event-loop model (C18)",
-    text="""Coq theorems fault_ok and fuel_ok over every input stream, and the fact that C01/C02/C04/C07 theorems quantify over fault results too; plus replay of real engine traces with errno injection (read/write/close/epoll_ctl/accept/epoll_wait; singly and in pairs; coherent: a fatal injected errno also shuts the real socket down).""",
+    text="""Coq theorems fault_ok and fuel_ok over every input stream, and the fact that C01/C02/C04/C07 theorems quantify over fault results too; Polling's sentinel errors, the accept errno classes (retry vs return) and every errno test of the loop's I/O code regenerated from the source on every run (genloop; LoopPioSpec proves the model's events/drains stop exactly on the declared sentinels); plus replay of real engine traces with errno injection (read/write/close/epoll_ctl/accept incl. the main reactor's accept4/epoll_wait; singly and in pairs; coherent: a fatal injected errno also shuts the real socket down).""",
     note="Proof is about the hand-written model coq/Model/Loop.v (kernel, handler and other goroutines are universally quantified inputs); "
          "the tie to /repo is the per-run trace correspondence through the vunix shim. Kernel stream semantics assumed (monitors in the model state the contract). Runs cover the default, gc_opt and poll_opt builds, server and client side, 1-4 loops (loop 0 modelled, the others judged by the direct oracles).",
     technique="Coq invariant proofs over a big-step interpreter of the event loop + executable trace checkers + differential replay of real engine runs",
